@@ -167,28 +167,43 @@ R18.5 the written file is the one a plain run picks up: FindConfig tries all con
 	c.Rule("R18.2", 3, "")
 	errorPaths(c, r, "R18.2", cmdp, fd, nil)
 	// R18.3
-	s := nodeString(fd.Body)
-	c.Check(strings.Contains(s, "config.NewDefaultKoanf(ctx)") && strings.Contains(s, "k.Unmarshal(\"\", rootConf)"), "R18.3", "initRun|defaults", r.Pos(fd.Pos()), "defaults from NewDefaultKoanf unmarshalled into the RootConfig", "initRun does not take its defaults from config.NewDefaultKoanf (the loader's own defaults)")
+	fci := newFuncCanon(info, fd)
+	okDefaults := false
+	ast.Inspect(fd.Body, func(n ast.Node) bool {
+		if call, ok := n.(*ast.CallExpr); ok && strings.HasSuffix(calleeName(info, call), "koanf/v2.Koanf).Unmarshal") && len(call.Args) == 2 {
+			recv := fci.E(call.Fun.(*ast.SelectorExpr).X)
+			if strings.HasPrefix(recv, "config.NewDefaultKoanf(") && strings.HasSuffix(recv, "#0") && typeIs(info.TypeOf(call.Args[1]), "*config.RootConfig") {
+				okDefaults = true
+			}
+		}
+		return true
+	})
+	c.Check(okDefaults, "R18.3", "initRun|defaults", r.Pos(fd.Pos()), "defaults from NewDefaultKoanf unmarshalled into the RootConfig", "initRun does not take its defaults from config.NewDefaultKoanf (the loader's own defaults)")
 	if nr := FuncDecl(r.Pkg("config"), "NewRootConfig"); nr != nil {
-		c.Check(strings.Contains(nodeString(nr.Body), "NewDefaultKoanf(ctx)"), "R18.3", "NewRootConfig|defaults", r.Pos(nr.Pos()), "the loader uses the same defaults", "NewRootConfig no longer starts from NewDefaultKoanf")
+		uses := false
+		ast.Inspect(nr.Body, func(n ast.Node) bool {
+			if call, ok := n.(*ast.CallExpr); ok && strings.HasSuffix(calleeName(r.Pkg("config").TypesInfo, call), "config.NewDefaultKoanf") {
+				uses = true
+			}
+			return true
+		})
+		c.Check(uses, "R18.3", "NewRootConfig|defaults", r.Pos(nr.Pos()), "the loader uses the same defaults", "NewRootConfig no longer starts from NewDefaultKoanf")
 	}
 	okPkgs := false
-	var modName types.Object
 	ast.Inspect(fd.Body, func(n ast.Node) bool {
 		as, ok := n.(*ast.AssignStmt)
 		if !ok || len(as.Lhs) != 1 || len(as.Rhs) != 1 {
 			return true
 		}
-		if types.ExprString(as.Rhs[0]) == "args[0]" {
-			modName = objOf(info, as.Lhs[0].(*ast.Ident))
-		}
-		if types.ExprString(as.Lhs[0]) == "rootConf.Packages" {
+		if se, ok := as.Lhs[0].(*ast.SelectorExpr); ok && se.Sel.Name == "Packages" && typeIs(info.TypeOf(se.X), "*config.RootConfig") {
 			if cl, ok := as.Rhs[0].(*ast.CompositeLit); ok && len(cl.Elts) == 1 {
 				kv := cl.Elts[0].(*ast.KeyValueExpr)
-				if id, ok := kv.Key.(*ast.Ident); ok && modName != nil && info.Uses[id] == modName {
+				if fci.E(kv.Key) == "ARG0[0]" {
 					ast.Inspect(kv.Value, func(m ast.Node) bool {
-						if k2, ok := m.(*ast.KeyValueExpr); ok && types.ExprString(k2.Key) == "All" && types.ExprString(k2.Value) == "addr(true)" {
-							okPkgs = true
+						if k2, ok := m.(*ast.KeyValueExpr); ok && types.ExprString(k2.Key) == "All" {
+							if call, ok := k2.Value.(*ast.CallExpr); ok && len(call.Args) == 1 && types.ExprString(call.Args[0]) == "true" {
+								okPkgs = true
+							}
 						}
 						return true
 					})
@@ -244,46 +259,48 @@ R19.6 what migrate writes is loadable: yaml and koanf names agree for every conf
 		v3koanf[v3t.Field(i).Name()] = tagName(v3t.Tag(i), "koanf")
 	}
 	v2param := mc.Type.Params.List[2].Names[0].Name
+	fcm := newFuncCanon(info, mc)
+	const v3p, v2p = "*ARG3.", "ARG2."
 	seenDirect, seenTD := map[string]bool{}, map[string]bool{}
 	var walk func(list []ast.Stmt, guards []string)
 	walk = func(list []ast.Stmt, guards []string) {
 		for _, s := range list {
 			switch x := s.(type) {
 			case *ast.IfStmt:
-				walk(x.Body.List, append(append([]string{}, guards...), types.ExprString(x.Cond)))
+				walk(x.Body.List, append(append([]string{}, guards...), fcm.E(x.Cond)))
 				if eb, ok := x.Else.(*ast.BlockStmt); ok {
-					walk(eb.List, append(append([]string{}, guards...), "!("+types.ExprString(x.Cond)+")"))
+					walk(eb.List, append(append([]string{}, guards...), "!("+fcm.E(x.Cond)+")"))
 				}
 			case *ast.AssignStmt:
 				if len(x.Lhs) != 1 || len(x.Rhs) != 1 {
 					continue
 				}
-				lhs := types.ExprString(x.Lhs[0])
-				rhs := types.ExprString(x.Rhs[0])
+				lhs := fcm.E(x.Lhs[0])
+				rhs := fcm.E(x.Rhs[0])
 				switch {
-				case strings.HasPrefix(lhs, "v3.TemplateData[\""):
-					key := strings.TrimSuffix(strings.TrimPrefix(lhs, "v3.TemplateData[\""), "\"]")
-					src := strings.TrimPrefix(strings.TrimPrefix(rhs, "*"), v2param+".")
+				case strings.HasPrefix(lhs, v3p+"TemplateData[\""):
+					key := strings.TrimSuffix(strings.TrimPrefix(lhs, v3p+"TemplateData[\""), "\"]")
+					src := strings.TrimPrefix(strings.TrimPrefix(rhs, "*"), v2p)
 					want, ok := migrateTemplateData[v2yaml[src]]
-					guardOK := len(guards) == 1 && guards[0] == v2param+"."+src+" != nil"
+					guardOK := len(guards) == 1 && guards[0] == v2p+src+" != nil"
 					pos := r.Pos(x.Pos())
 					switch {
 					case !ok || want != key:
 						c.Fail("R19.1", "migrateConfig|template-data|"+key, pos, fmt.Sprintf("template-data[%q] is written from v2 %q; not in the documented mapping", key, v2yaml[src]))
 					case !guardOK:
-						c.Fail("R19.1", "migrateConfig|template-data-guard|"+key, pos, fmt.Sprintf("template-data[%q] is written under %v, want exactly '%s.%s != nil'", key, guards, v2param, src))
+						c.Fail("R19.1", "migrateConfig|template-data-guard|"+key, pos, fmt.Sprintf("template-data[%q] is written under %v, want exactly '<v2 section>.%s != nil'", key, guards, src))
 					default:
 						seenTD[key] = true
 						c.OK("R19.1", "migrateConfig|template-data|"+key, pos, v2yaml[src]+" -> template-data."+key)
 					}
-				case strings.HasPrefix(lhs, "v3.") && lhs != "v3.TemplateData":
-					field := strings.TrimPrefix(lhs, "v3.")
-					src := strings.TrimPrefix(rhs, v2param+".")
+				case strings.HasPrefix(lhs, v3p) && lhs != v3p+"TemplateData":
+					field := strings.TrimPrefix(lhs, v3p)
+					src := strings.TrimPrefix(rhs, v2p)
 					pos := r.Pos(x.Pos())
 					want, ok := migrateDirect[v2yaml[src]]
 					switch {
-					case !strings.HasPrefix(rhs, v2param+".") || !ok || want != v3koanf[field]:
-						c.Fail("R19.1", "migrateConfig|direct|"+v3koanf[field], pos, fmt.Sprintf("v3 %q is assigned from %s (v2 %q); documented source: the v2 key mapped to it", v3koanf[field], rhs, v2yaml[src]))
+					case !strings.HasPrefix(rhs, v2p) || !ok || want != v3koanf[field]:
+						c.Fail("R19.1", "migrateConfig|direct|"+v3koanf[field], pos, fmt.Sprintf("v3 %q is assigned from %s (v2 %q); documented source: the v2 key mapped to it", v3koanf[field], types.ExprString(x.Rhs[0]), v2yaml[src]))
 					case len(guards) != 0:
 						c.Fail("R19.1", "migrateConfig|direct-conditional|"+v3koanf[field], pos, fmt.Sprintf("v3 %q is copied only under %v: the setting is dropped at levels where that condition does not hold although configuration is inherited across levels", v3koanf[field], guards))
 					default:
@@ -408,25 +425,77 @@ func ruleMigrateRun(c *Ctx, r *Repo, cmdp *packages.Package) {
 	ast.Inspect(run.Body, func(n ast.Node) bool {
 		if call, ok := n.(*ast.CallExpr); ok {
 			if fn := calleeFunc(info, call); fn != nil && fn.Name() == "migrateConfig" && len(call.Args) == 4 {
-				calls = append(calls, types.ExprString(call.Args[2])+" -> "+types.ExprString(call.Args[3]))
+				calls = append(calls, typeShape(info, call.Args[2])+" -> "+typeShape(info, call.Args[3]))
 			}
 		}
 		return true
 	})
-	want := []string{"&v2.V2Config -> &v3Config", "pkgConfig.Config -> &v3PkgConfig.Config", "interfaceConfig.Config -> &v3InterfaceConfig.Config", "&v2SubConfig -> &v3SubConfig"}
+	want := []string{"&<internal/cmd.V2RootConfig>.V2Config -> &<*config.Config>", "<internal/cmd.V2PackageConfig>.Config -> &<*config.PackageConfig>.Config", "<internal/cmd.V2InterfaceConfig>.Config -> &<config.InterfaceConfig>.Config", "&<internal/cmd.V2Config> -> &<*config.Config>"}
 	c.Check(strings.Join(calls, "; ") == strings.Join(want, "; "), "R19.2", "run|level-pairs", r.Pos(run.Pos()), strings.Join(want, "; "), fmt.Sprintf("migrateConfig is applied to the level pairs %v, want %v", calls, want))
-	s := nodeString(run.Body)
-	stores := map[string]bool{}
+	// stores keyed by the names ranged over
+	rangeKeyOf := func(field, holder string) types.Object { // key variable of `for k, _ := range <holder value>.<field>`
+		var out types.Object
+		ast.Inspect(run.Body, func(n ast.Node) bool {
+			if rs, ok := n.(*ast.RangeStmt); ok {
+				if se, ok := ast.Unparen(rs.X).(*ast.SelectorExpr); ok && se.Sel.Name == field && typeIs(info.TypeOf(se.X), holder) {
+					if k, ok := rs.Key.(*ast.Ident); ok && k.Name != "_" {
+						out = info.Defs[k]
+					}
+				}
+			}
+			return true
+		})
+		return out
+	}
+	storeKeyed := func(field, holder string, key types.Object) bool {
+		found := false
+		ast.Inspect(run.Body, func(n ast.Node) bool {
+			if as, ok := n.(*ast.AssignStmt); ok && len(as.Lhs) == 1 {
+				if ie, ok := as.Lhs[0].(*ast.IndexExpr); ok && key != nil && isObj(info, ie.Index, key) {
+					if se, ok := ast.Unparen(ie.X).(*ast.SelectorExpr); ok && se.Sel.Name == field && typeIs(info.TypeOf(se.X), holder) {
+						found = true
+					}
+				}
+			}
+			return true
+		})
+		return found
+	}
+	pk := rangeKeyOf("Packages", "internal/cmd.V2RootConfig")
+	c.Check(pk != nil && storeKeyed("Packages", "config.RootConfig", pk), "R19.2", "run|package-names", r.Pos(run.Pos()), "packages stored under the name ranged over", "a migrated package is not stored under exactly the package name it was read from")
+	ik := rangeKeyOf("Interfaces", "internal/cmd.V2PackageConfig")
+	c.Check(ik != nil && storeKeyed("Interfaces", "*config.PackageConfig", ik), "R19.2", "run|interface-names", r.Pos(run.Pos()), "interfaces stored under the name ranged over", "a migrated interface is not stored under exactly the interface name it was read from")
+	okAppend := false
 	ast.Inspect(run.Body, func(n ast.Node) bool {
-		if as, ok := n.(*ast.AssignStmt); ok && len(as.Lhs) == 1 {
-			stores[nodeStringStmt(as)] = true
+		rs, ok := n.(*ast.RangeStmt)
+		if !ok {
+			return true
+		}
+		if se, ok := ast.Unparen(rs.X).(*ast.SelectorExpr); !ok || se.Sel.Name != "Configs" || !typeIs(info.TypeOf(se.X), "internal/cmd.V2InterfaceConfig") {
+			return true
+		}
+		for _, s := range rs.Body.List {
+			if as, ok := s.(*ast.AssignStmt); ok && len(as.Lhs) == 1 && len(as.Rhs) == 1 {
+				if call, ok := as.Rhs[0].(*ast.CallExpr); ok && calleeName(info, call) == "builtin.append" && len(call.Args) == 2 && types.ExprString(call.Args[0]) == types.ExprString(as.Lhs[0]) {
+					if se, ok := as.Lhs[0].(*ast.SelectorExpr); ok && se.Sel.Name == "Configs" && typeIs(info.TypeOf(se.X), "config.InterfaceConfig") {
+						okAppend = true
+					}
+				}
+			}
 		}
 		return true
 	})
-	c.Check(stores["v3.Packages[pkgName] = v3PkgConfig"] && rangeOver(run, "v2.Packages") != nil, "R19.2", "run|package-names", r.Pos(run.Pos()), "packages stored under the name ranged over", "a migrated package is not stored under exactly the package name it was read from")
-	c.Check(stores["v3PkgConfig.Interfaces[interfaceName] = &v3InterfaceConfig"] && rangeOver(run, "pkgConfig.Interfaces") != nil, "R19.2", "run|interface-names", r.Pos(run.Pos()), "interfaces stored under the name ranged over", "a migrated interface is not stored under exactly the interface name it was read from")
-	c.Check(stores["v3InterfaceConfig.Configs = append(v3InterfaceConfig.Configs, v3SubConfig)"] && rangeOver(run, "interfaceConfig.Configs") != nil, "R19.2", "run|configs-order", r.Pos(run.Pos()), "configs entries appended in order", "configs entries are not appended one by one in their original order")
-	c.Check(strings.Contains(s, "v3.Config = *v3Config") || stores["v3.Config = *v3Config"], "R19.2", "run|root-config", r.Pos(run.Pos()), "root config assigned", "the migrated root config is not stored in the v3 root")
+	c.Check(okAppend, "R19.2", "run|configs-order", r.Pos(run.Pos()), "configs entries appended in order", "configs entries are not appended one by one in their original order")
+	okRoot := false
+	ast.Inspect(run.Body, func(n ast.Node) bool {
+		if as, ok := n.(*ast.AssignStmt); ok && len(as.Lhs) == 1 && len(as.Rhs) == 1 {
+			if se, ok := as.Lhs[0].(*ast.SelectorExpr); ok && se.Sel.Name == "Config" && typeIs(info.TypeOf(se.X), "config.RootConfig") && typeShape(info, as.Rhs[0]) == "*<*config.Config>" {
+				okRoot = true
+			}
+		}
+		return true
+	})
+	c.Check(okRoot, "R19.2", "run|root-config", r.Pos(run.Pos()), "root config assigned", "the migrated root config is not stored in the v3 root")
 	// R19.3
 	var sites []effectSite
 	for _, e := range effectSites(r, cmdp) {
@@ -440,10 +509,10 @@ func ruleMigrateRun(c *Ctx, r *Repo, cmdp *packages.Package) {
 		switch {
 		case !e.Write && strings.HasSuffix(e.Callee, ".OpenFile"):
 			nRead++
-			c.Check(strings.HasPrefix(types.ExprString(e.Call.Fun), "confPath."), "R19.3", "run|input-read-only", e.Pos, "the v2 file is opened O_RDONLY", "the read-only open is not on the v2 config path")
+			c.Check(!strings.Contains(newFuncCanon(info, run).E(e.Call.Fun.(*ast.SelectorExpr).X), "ARG2"), "R19.3", "run|input-read-only", e.Pos, "the v2 file is opened O_RDONLY", "the read-only open is not on the v2 config path")
 		case strings.HasSuffix(e.Callee, ".OpenFile"):
 			nWrite++
-			onOut := strings.HasPrefix(types.ExprString(e.Call.Fun), "outFile.")
+			onOut := newFuncCanon(info, run).E(e.Call.Fun.(*ast.SelectorExpr).X) == "github.com/chigopher/pathlib.NewPath(ARG2)"
 			c.Check(onOut && strings.Contains(fl, "|O_CREATE|") && (strings.Contains(fl, "|O_TRUNC|") || strings.Contains(fl, "|O_EXCL|")), "R19.3", "run|output-open", e.Pos, "the v3 file is opened "+e.Flags, fmt.Sprintf("the output is opened with %s on %s: without O_TRUNC a longer previous file leaves a stale tail in the result; the write must go to --outfile only", e.Flags, types.ExprString(e.Call.Fun)))
 		default:
 			c.Fail("R19.3", "run|other-mutator|"+e.Key(), e.Pos, "migrate's run calls "+e.Callee)
@@ -469,7 +538,7 @@ func ruleMigrateRun(c *Ctx, r *Repo, cmdp *packages.Package) {
 	// R19.6: template-data keys written vs. the schema of the selected template
 	tmpl := ""
 	ast.Inspect(run.Body, func(n ast.Node) bool {
-		if as, ok := n.(*ast.AssignStmt); ok && len(as.Lhs) == 1 && types.ExprString(as.Lhs[0]) == "v3Config.Template" {
+		if as, ok := n.(*ast.AssignStmt); ok && len(as.Lhs) == 1 && typeShape(info, as.Lhs[0]) == "<*config.Config>.Template" {
 			if call, ok := as.Rhs[0].(*ast.CallExpr); ok && len(call.Args) == 1 {
 				tmpl = strings.Trim(types.ExprString(call.Args[0]), `"`)
 			}
@@ -480,15 +549,34 @@ func ruleMigrateRun(c *Ctx, r *Repo, cmdp *packages.Package) {
 	if tmpl != "" {
 		props := schemaProperties(c, tmpl)
 		mc := FuncDecl(cmdp, "migrateConfig")
+		fcs := newFuncCanon(info, mc)
 		ast.Inspect(mc.Body, func(n ast.Node) bool {
 			if as, ok := n.(*ast.AssignStmt); ok && len(as.Lhs) == 1 {
-				lhs := types.ExprString(as.Lhs[0])
-				if strings.HasPrefix(lhs, "v3.TemplateData[\"") {
-					key := strings.TrimSuffix(strings.TrimPrefix(lhs, "v3.TemplateData[\""), "\"]")
+				lhs := fcs.E(as.Lhs[0])
+				if strings.HasPrefix(lhs, "*ARG3.TemplateData[\"") {
+					key := strings.TrimSuffix(strings.TrimPrefix(lhs, "*ARG3.TemplateData[\""), "\"]")
 					c.Check(props[key], "R19.6", "migrateConfig|schema-key|"+key, r.Pos(as.Pos()), "template-data."+key+" is a property of the "+tmpl+" schema", fmt.Sprintf("migrate writes template-data[%q], which the %s schema (additionalProperties: false) rejects: the migrated file fails validation when mocks are generated", key, tmpl))
 				}
 			}
 			return true
 		})
 	}
+}
+
+// typeShape prints an expression with its root identifier replaced by the
+// identifier's type: &v2.V2Config -> &<internal/cmd.V2RootConfig>.V2Config.
+func typeShape(info *types.Info, e ast.Expr) string {
+	switch x := ast.Unparen(e).(type) {
+	case *ast.UnaryExpr:
+		return x.Op.String() + typeShape(info, x.X)
+	case *ast.StarExpr:
+		return "*" + typeShape(info, x.X)
+	case *ast.SelectorExpr:
+		return typeShape(info, x.X) + "." + x.Sel.Name
+	case *ast.Ident:
+		if t := info.TypeOf(x); t != nil {
+			return "<" + shortType(t) + ">"
+		}
+	}
+	return types.ExprString(e)
 }
